@@ -123,10 +123,10 @@ theorem washoutOrLag_all (s u T K z0 z1 x y : F) (hT : T ≠ 0) (hf : WashoutOrL
     exact WashoutOrLag_tf s u T K z0 z1 x y e0 e1 hT h
 
 /-- `LeadLag2ndOrd(zero_out=True)` with the flags the code computes: documented transfer function for `T2 ≠ 0` and
-for the documented by-pass "all four zero".  (What the code does in the corner `T1 = T2 = T4 = 0 ≠ T3`, where `LT3`
-wrongly tests `T4`, is `leadlag2_LT3_tests_T4` below.) -/
+for the documented by-pass "all four zero".  (The corner `T1 = T2 = T4 = 0 ≠ T3` is `leadlag2_T3_only_singular` below:
+since the repair of `leadlag2-LT3-tests-T4` the by-pass is not selected there any more.) -/
 theorem leadlag2_all_admissible (s u T1 T2 T3 T4 a0 a1 b0 b1 c0 c1 d0 d1 x1 x2 y : F)
-    (hf : LeadLag2ndOrdZ.Flags T1 T2 T4 a0 a1 b0 b1 c0 c1 d0 d1)
+    (hf : LeadLag2ndOrdZ.Flags T1 T2 T3 T4 a0 a1 b0 b1 c0 c1 d0 d1)
     (hadm : T2 ≠ 0 ∨ (T1 = 0 ∧ T2 = 0 ∧ T3 = 0 ∧ T4 = 0))
     (h : LeadLag2ndOrdZ.Laplace s u T1 T2 T3 T4 a1 b1 c1 d1 x1 x2 y) :
     Realises (1 + s * T3 + s * s * T4) (1 + s * T1 + s * s * T2) u y := by
@@ -137,7 +137,7 @@ theorem leadlag2_all_admissible (s u T1 T2 T3 T4 a0 a1 b0 b1 c0 c1 d0 d1 x1 x2 y
     exact LeadLag2ndOrdZ_tf s u T1 T2 T3 T4 a1 b1 c1 d1 x1 x2 y e hT h
   · have ea : a1 = 1 := by rw [ha]; simp [h1]
     have eb : b1 = 1 := by rw [hb]; simp [h2]
-    have ec : c1 = 1 := by rw [hc]; simp [h4]
+    have ec : c1 = 1 := by rw [hc]; simp [h3]
     have ed : d1 = 1 := by rw [hd]; simp [h4]
     have := LeadLag2ndOrdZ_zero_bypass s u T1 T2 T3 T4 a1 b1 c1 d1 x1 x2 y ea eb ec ed h1 h2 h3 h4 h
     subst h1 h2 h3 h4; simpa using this
@@ -150,31 +150,30 @@ theorem washout_T0_singular (s u K y : F) : Washout.Laplace s u 0 K u y := by
 
 /-! ## 3. defects of the pinned tree: the code's relation, and parametric counterexamples to the documented one -/
 
-/-- DEFECT `pid-ignores-Td`: `PIDController` builds `Washout(T = kd)`; its equations do not mention `Td` at all -/
-theorem pid_equations_ignore_Td (s u kp ki kd Td Td' ref x0 uin pxi py wx wy y : F) :
-    PIDController.Laplace s u kp ki kd Td ref x0 uin pxi py wx wy y ↔
-    PIDController.Laplace s u kp ki kd Td' ref x0 uin pxi py wx wy y := Iff.rfl
+/-- **`PIDController` realises the documented `kp + ki/s + s kd/(1 + s Td)`** (full strength since the repair of
+`pid-ignores-Td`: the block built `Washout(T = kd)` and `Td` did not occur in its equations). -/
+theorem pid_realises (s u kp ki kd Td ref x0 uin pxi py wx wy y : F) (hT : Td ≠ 0)
+    (h : PIDController.Laplace s u kp ki kd Td ref x0 uin pxi py wx wy y) :
+    Realises ((kp * s + ki) * (1 + s * Td) + s * kd * s) (s * (1 + s * Td)) (u - ref) y := by
+  have := PIDController_tf s u kp ki kd Td ref x0 uin pxi py wx wy y hT h
+  unfold Realises; linear_combination this
 
-theorem pidaw_equations_ignore_Td (s u kp ki kd Td Td' al au lo up ref x0 zi zl zu xi uin wx wy yul y : F) :
-    PIDAWHardLimit.Laplace s u kp ki kd Td al au lo up ref x0 zi zl zu xi uin wx wy yul y ↔
-    PIDAWHardLimit.Laplace s u kp ki kd Td' al au lo up ref x0 zi zl zu xi uin wx wy yul y := Iff.rfl
+/-- the same for `PIDAWHardLimit` inside its limits (`pidaw-ignores-Td`, repaired) -/
+theorem pidaw_realises (s u kp ki kd Td al au lo up ref x0 xi uin wx wy yul y : F) (hT : Td ≠ 0)
+    (h : PIDAWHardLimit.Laplace s u kp ki kd Td al au lo up ref x0 1 0 0 xi uin wx wy yul y) :
+    Realises ((kp * s + ki) * (1 + s * Td) + s * kd * s) (s * (1 + s * Td)) (u - ref) y := by
+  have := PIDAWHardLimit_tf s u kp ki kd Td al au lo up ref x0 1 0 0 xi uin wx wy yul y rfl rfl rfl hT h
+  unfold Realises; linear_combination this
 
-/-- whenever the equations hold and the DOCUMENTED transfer function also holds, `(Td − kd)·kd·s³·(u − ref) = 0`:
-for a genuine input at `s ≠ 0` with `kd ≠ 0` the documented response is obtained only if `Td = kd`. -/
-theorem pid_documented_iff (s u kp ki kd Td ref x0 uin pxi py wx wy y : F) (hkd : kd ≠ 0)
-    (h : PIDController.Laplace s u kp ki kd Td ref x0 uin pxi py wx wy y)
-    (hdoc : y * (s * (1 + s * Td)) = ((kp * s + ki) * (1 + s * Td) + s * s * kd) * (u - ref)) :
-    (Td - kd) * kd * (s * s * s) * (u - ref) = 0 := by
-  have hact := PIDController_tf_actual s u kp ki kd Td ref x0 uin pxi py wx wy y hkd h
-  linear_combination (1 + s * kd) * hdoc - (1 + s * Td) * hact
+/-- the input that failed on the pinned tree (kd = 1, Td = 2, s = 1, unit error): the equations now force the
+documented response `y = 7/3` (they admitted `y = 5/2`) -/
+theorem pid_Td_witness (uin pxi py wx wy y : ℚ)
+    (h : PIDController.Laplace (1 : ℚ) 1 1 1 1 2 0 0 uin pxi py wx wy y) : y = 7 / 3 := by
+  have := PIDController_tf (1 : ℚ) 1 1 1 1 2 0 0 uin pxi py wx wy y (by norm_num) h
+  linarith
 
-/-- concrete witness (kd = 1, Td = 2, s = 1, unit error): the equations hold, the documented relation does not -/
-theorem pid_ignores_Td_counterexample :
-    ∃ (uin pxi py wx wy y : ℚ), PIDController.Laplace (1 : ℚ) 1 1 1 1 2 0 0 uin pxi py wx wy y ∧
-      ¬ (y * (1 * (1 + 1 * 2)) = ((1 * 1 + 1) * (1 + 1 * 2) + 1 * 1 * 1) * (1 - 0)) := by
-  refine ⟨1, 1, 2, 1 / 2, 1 / 2, 5 / 2, ?_, ?_⟩
-  · unfold PIDController.Laplace; norm_num
-  · norm_num
+example : PIDController.Laplace (1 : ℚ) 1 1 1 1 2 0 0 1 1 2 (1 / 3) (1 / 3) (7 / 3) := by
+  unfold PIDController.Laplace; norm_num
 
 /-- DEFECT `leadlag-init-ignores-K`: with the declared initial values the output equation balances iff
 `(K − 1)·T2·u = 0` -/
@@ -237,23 +236,19 @@ theorem lagrate_counterexample :
   · unfold LagRate.Laplace; norm_num
   · norm_num
 
-/-- DEFECT `leadlag2-LT3-tests-T4`: with `T1 = T2 = T4 = 0` and ANY `T3` the flags the code computes are all 1 and
-the equations force `y = u`, whereas the documented transfer function is `1 + s T3`. -/
-theorem leadlag2_LT3_tests_T4 [DecidableEq F] (s u T3 a0 a1 b0 b1 c0 c1 d0 d1 x1 x2 y : F)
-    (hf : LeadLag2ndOrdZ.Flags 0 0 0 a0 a1 b0 b1 c0 c1 d0 d1)
-    (h : LeadLag2ndOrdZ.Laplace s u 0 0 T3 0 a1 b1 c1 d1 x1 x2 y) : y = u := by
-  unfold LeadLag2ndOrdZ.Flags at hf; obtain ⟨ha, -, hb, -, hc, -, hd, -⟩ := hf
-  simp only [if_true] at ha hb hc hd; subst ha hb hc hd
-  unfold LeadLag2ndOrdZ.Laplace at h; grind
-
-theorem leadlag2_LT3_counterexample :
-    ∃ (x1 x2 y : ℚ), LeadLag2ndOrdZ.Flags (0 : ℚ) 0 0 0 1 0 1 0 1 0 1 ∧
-      LeadLag2ndOrdZ.Laplace (1 : ℚ) 1 0 0 1 0 1 1 1 1 x1 x2 y ∧
-      ¬ (y * (1 + 1 * 0 + 1 * 1 * 0) = (1 + 1 * 1 + 1 * 1 * 0) * 1) := by
-  refine ⟨1, 1, 1, ?_, ?_, ?_⟩
-  · unfold LeadLag2ndOrdZ.Flags; norm_num
-  · unfold LeadLag2ndOrdZ.Laplace; norm_num
-  · norm_num
+/-- the corner `T1 = T2 = T4 = 0 ≠ T3` (an improper transfer function `1 + s T3`) is outside the block's domain, like
+every `T2 = 0` case that is not the documented by-pass: the flags the code computes are `LT3 = 0`, the by-pass term
+is off, the output equation is `0 = 0` and ANY `y` satisfies the equations.  (On the pinned tree `LT3` tested `T4`,
+the by-pass was selected and `y = u` was imposed although `T3 ≠ 0`: `leadlag2-LT3-tests-T4`, repaired.) -/
+theorem leadlag2_T3_only_singular [DecidableEq F] (s u T3 a0 a1 b0 b1 c0 c1 d0 d1 y : F) (hT3 : T3 ≠ 0)
+    (hf : LeadLag2ndOrdZ.Flags 0 0 T3 0 a0 a1 b0 b1 c0 c1 d0 d1) :
+    c1 = 0 ∧ LeadLag2ndOrdZ.Laplace s u 0 0 T3 0 a1 b1 c1 d1 (s * u) u y := by
+  unfold LeadLag2ndOrdZ.Flags at hf; obtain ⟨-, -, -, -, hc, -, -, -⟩ := hf
+  have e : c1 = 0 := by rw [hc]; simp [hT3]
+  refine ⟨e, ?_⟩
+  subst e
+  unfold LeadLag2ndOrdZ.Laplace
+  refine ⟨?_, ?_, ?_⟩ <;> ring
 
 end Field
 
